@@ -1441,6 +1441,7 @@ func (s *Service) runPipeline(rp *runnablePipeline) error {
 		sourceID := rp.sourceIDs[i]
 		workersWg.Add(1)
 		rp.t.Go(func() error {
+			defer verifhook.At("lifecycle.node-done:" + sourceID)
 			defer workersWg.Done()
 
 			// See `registered` above: must not return before every other
